@@ -87,6 +87,23 @@ let register (reg : string -> (string list -> string) -> unit) =
        | Some evs -> "ok " ^ String.concat " " (List.map tok_of_bytes evs)
        | None -> "short")
     | _ -> failwith "args");
+  (* rdrun <P> <pos> <N> <stream hex> op... : the model reader (state machine) on a payload stream;
+     op = n (Next) | r<k> (Read into a buffer of k bytes); one result per op: s<size> | b<hex> *)
+  reg "rdrun" (fun a -> match a with
+    | pp :: pos :: n :: st :: ops ->
+      let ops' = List.map (fun o -> if o = "n" then RNext else RRead (nat_of_int (int_of_string (String.sub o 1 (String.length o - 1))))) ops in
+      let st0 = { r_pos = nat_of_int (int_of_string pos); r_left = None; r_id = O } in
+      let outs = rd_run (nat_of_int (int_of_string pp)) (bytes_of_tok st) (nat_of_int (int_of_string n)) st0 ops' in
+      String.concat " " (List.map (fun ((sz, bs) : (nat option * z list)) ->
+        match sz with Some k -> "s" ^ string_of_int (int_of_nat k) | None -> "b" ^ tok_of_bytes bs) outs)
+    | _ -> failwith "args");
+  (* curadv <P> <pg> <off> <n> : the page-level cursor moved by n bytes *)
+  reg "curadv" (fun a -> match a with
+    | [pp; pg; off; n] ->
+      let k = nat_of_int (int_of_string n) in
+      let (pg', off') = cur_adv k (nat_of_int (int_of_string pp)) (nat_of_int (int_of_string pg)) (nat_of_int (int_of_string off)) k in
+      string_of_int (int_of_nat pg') ^ " " ^ string_of_int (int_of_nat off')
+    | _ -> failwith "args");
   reg "pagescript" pagescript;
   (* lockscript s p r op... : per op the new state, or B when the op would block (state unchanged) *)
   reg "lockscript" (fun a -> match a with
